@@ -73,7 +73,8 @@ Note(k, v) ==
                                                       LB("Ref", 0, n \o "own", <<L(Rel(k, d), "inline", n \o "ow")>>)>>]   \* a block reference to the note itself
       [] v = 8 -> [title |-> "T" \o n, blocks |-> <<LB("Quote", 0, n \o "q", <<L(a, "inline", n \o "qa")>>),
                                                       LB("Em", 0, n \o "e", <<L(U(b.up, b.segs, FALSE, b.up = 0), "inline", n \o "eb")>>),
-                                                      LB("Em2", 0, n \o "f", <<L(a, "inline", n \o "fa")>>)>>]
+                                                      LB("Em2", 0, n \o "f", <<L(a, "inline", n \o "fa")>>),
+                                                      LB("Img", 0, n \o "g", <<L(b, "inline", n \o "gb")>>)>>]   \* a link inside the alternative text of an image
       [] v = 10 -> [title |-> "T" \o n, blocks |-> <<LB("Code", 0, n \o "c", <<>>),
                                                        LB("Ref", 0, n \o "r", <<L(a, "inline", n \o "ra")>>),
                                                        LB("Rule", 0, "", <<>>),
